@@ -718,6 +718,29 @@ struct Net {
     l6: Option<tokio::net::TcpListener>,
 }
 
+/// One pair of listening sockets per process: a fresh listener per case would leave every
+/// ephemeral port of 127.0.0.1 in TIME_WAIT after a few ten thousand cases.
+static LISTENERS: std::sync::OnceLock<(std::net::TcpListener, Option<std::net::TcpListener>)> = std::sync::OnceLock::new();
+
+fn case_net() -> Option<Net> {
+    let (l4, l6) = LISTENERS.get_or_init(|| {
+        let l4 = std::net::TcpListener::bind("127.0.0.1:0").expect("bind 127.0.0.1");
+        l4.set_nonblocking(true).expect("nonblocking");
+        let l6 = std::net::TcpListener::bind("[::1]:0").ok();
+        if let Some(l) = &l6 {
+            l.set_nonblocking(true).expect("nonblocking");
+        }
+        (l4, l6)
+    });
+    // register a duplicate of the descriptor with this case's runtime
+    let l4 = tokio::net::TcpListener::from_std(l4.try_clone().ok()?).ok()?;
+    let l6 = match l6 {
+        Some(l) => Some(tokio::net::TcpListener::from_std(l.try_clone().ok()?).ok()?),
+        None => None,
+    };
+    Some(Net { l4, l6 })
+}
+
 async fn pair_from(net: &Net, src: IpAddr) -> std::io::Result<(TcpStream, TcpStream)> {
     let (sock, listener) = match src {
         IpAddr::V4(_) => (tokio::net::TcpSocket::new_v4()?, &net.l4),
@@ -726,14 +749,18 @@ async fn pair_from(net: &Net, src: IpAddr) -> std::io::Result<(TcpStream, TcpStr
             net.l6.as_ref().ok_or_else(|| std::io::Error::other("no ::1"))?,
         ),
     };
+    // source ports still in TIME_WAIT may be taken again
+    sock.set_reuseaddr(true)?;
     sock.bind(SocketAddr::new(src, 0))?;
     let laddr = listener.local_addr()?;
     let (c, s) = tokio::join!(sock.connect(laddr), listener.accept());
     let c = c?;
     let (s, from) = s?;
-    if from.ip() != src {
+    if from.ip() != src || from.port() != c.local_addr()?.port() {
         return Err(std::io::Error::other("accepted a foreign connection"));
     }
+    // the remote end goes away with a reset: no TIME_WAIT entry is left behind
+    let _ = c.set_linger(Some(Duration::from_secs(0)));
     Ok((c, s))
 }
 
@@ -959,9 +986,8 @@ async fn run_hist(gt: &Term, groups: &Term, peers: &Term, ops: &Term) -> Option<
         global.clone(),
         tables.clone(),
     );
-    let net = Net {
-        l4: tokio::net::TcpListener::bind("127.0.0.1:0").await.ok()?,
-        l6: tokio::net::TcpListener::bind("[::1]:0").await.ok(),
+    let Some(net) = case_net() else {
+        return Some("(harness-cannot-listen)".into());
     };
 
     let mut live: Vec<Option<Live>> = Vec::new();
